@@ -77,6 +77,73 @@ def run():
         raise TieBroken("set_pipe_to is no longer called before disable_buffering")
     stop_before_disable = stops[0][0] < dis[0]
 
+    # ---- the order in which the two actions drive the inner handler (goal: "configuration changed mid-stream")
+    def handler_ops(fn, recv):
+        """(line, op) of every method call on / attribute assignment to `recv` inside fn, in source order"""
+        ops = []
+        for n in ast.walk(fn):
+            if isinstance(n, ast.Call) and isinstance(n.func, ast.Attribute) and _recv(n.func) == recv:
+                ops.append((n.lineno, n.func.attr))
+            elif isinstance(n, ast.Assign):
+                for t in n.targets:
+                    if isinstance(t, ast.Attribute) and _recv(t) == recv:
+                        ops.append((n.lineno, t.attr + "="))
+        return sorted(ops)
+
+    def llm_calls_into(fn, recv):
+        out = []
+        for n in ast.walk(fn):
+            if isinstance(n, ast.Call) and isinstance(n.func, ast.Name) and n.func.id == "llm_call":
+                for k in n.keywords:
+                    if k.arg == "custom_callback_handlers" and isinstance(k.value, ast.List) and any(isinstance(e, ast.Name) and e.id == recv for e in k.value.elts):
+                        out.append(n.lineno)
+        return sorted(out)
+
+    def collapse(ops):
+        """alternatives of one if/else (same op on consecutive entries) count once"""
+        out = []
+        for _, o in ops:
+            if not out or out[-1] != o:
+                out.append(o)
+        return out
+
+    s_ops = handler_ops(single, "_streaming_handler")
+    b_ops = handler_ops(bot, "_streaming_handler")
+    known = {"enable_buffering", "wait_top_k_nonempty_lines", "set_pattern", "set_pipe_to", "stop=", "disable_buffering", "wait", "uid"}
+    extra = sorted({o for _, o in s_ops + b_ops} - known)
+    if extra:
+        raise TieBroken(f"the single-call mode performs operations on the inner handler that the usage model does not have: {extra}")
+    protocol = [o for o in collapse(s_ops) + collapse(b_ops) if o not in ("uid", "wait")]
+    llm_s = llm_calls_into(single, "_streaming_handler")
+    en = _calls(single, "_streaming_handler", "enable_buffering")
+    wt = _calls(single, "_streaming_handler", "wait_top_k_nonempty_lines")
+    if len(llm_s) != 1 or not (en[0] < llm_s[0] < wt[0]):
+        raise TieBroken("generate_intent_steps_message: expected enable_buffering() < llm_call(custom_callback_handlers=[_streaming_handler]) < wait_top_k_nonempty_lines()")
+    waits = _calls(bot, "_streaming_handler", "wait")
+    if len(waits) != 1 or not dis[0] < waits[0]:
+        raise TieBroken("generate_bot_message: `await _streaming_handler.wait()` expected after disable_buffering()")
+    # direct mode: set_pattern on the user's handler, then the LLM streams into it, then push_chunk(bot_utterance)
+    d_llm = llm_calls_into(bot, "streaming_handler")
+    d_after = [ln for ln in d_llm if ln > direct[-1][0]]
+    if not d_after:
+        raise TieBroken("generate_bot_message: no llm_call streaming into `streaming_handler` after its set_pattern")
+    d_first = min(d_after)
+    d_push = [ln for ln in _calls(bot, "streaming_handler", "push_chunk") if ln > d_first]
+    direct_protocol = ["set_pattern", "llm_call"] + (["push_chunk"] if d_push else [])
+    # every other use of a handler in generation.py: whole texts pushed into the (unconfigured) user handler
+    other = []
+    for fn in ast.walk(tree):
+        if isinstance(fn, (ast.FunctionDef, ast.AsyncFunctionDef)):
+            for n in ast.walk(fn):
+                if isinstance(n, ast.Call) and isinstance(n.func, ast.Attribute) and n.func.attr == "set_pattern" and fn.name not in ("generate_bot_message", "generate_intent_steps_message"):
+                    raise TieBroken(f"new set_pattern call site in {fn.name}:{n.lineno} — not covered by the usage model")
+
+    ws = [i for i in range(0x110000) if not 0xD800 <= i <= 0xDFFF and chr(i).isspace()]
+    # `str.strip()` without arguments strips exactly the characters for which str.isspace() holds
+    probe = "".join(chr(i) for i in ws)
+    if (probe + "x" + probe).strip() != "x" or any(chr(i).strip() == "" for i in (0x200B, 0x2060, 0xFEFF, 0x180E)):
+        raise TieBroken("str.strip() no longer agrees with str.isspace() on the probe")
+
     stree = parse(STR)
     push = find_def(stree, "push_chunk", cls="StreamingHandler")
     end = find_def(stree, "on_llm_end", cls="StreamingHandler")
@@ -113,11 +180,19 @@ def run():
         f"def handlerBuffersFirst : Bool := {'true' if buffers_first else 'false'}\n\n"
         "/-- stop sequences passed to the LLM itself in the single-call mode (informational) -/\n"
         f"def llmStop : List String := {lean_list([lean_str(x) for x in llm_stop])}\n\n"
+        "/-- operations generate_intent_steps_message, then generate_bot_message perform on the inner handler, in source order\n"
+        "    (alternatives of one if/else once; the LLM task is started between enable_buffering and wait_top_k_nonempty_lines,\n"
+        "    `wait()` follows disable_buffering — both checked by the translator) -/\n"
+        f"def singleCallProtocol : List String := {lean_list([lean_str(x) for x in protocol])}\n\n"
+        "/-- direct mode of generate_bot_message on the user's own handler -/\n"
+        f"def directProtocol : List String := {lean_list([lean_str(x) for x in direct_protocol])}\n\n"
+        "/-- code points c with chr(c).isspace() in the running CPython (= what str.strip() removes), all of Unicode scanned -/\n"
+        f"def wsCodes : List Nat := {lean_list([str(i) for i in ws])}\n\n"
         "end NemoVerif.Generated.C18\n"
     )
     write_generated("C18", body)
     return {
         "sites": [{"site": n, "prefix": p, "suffix": s, "stop": st, "k": k, "buffered": b} for n, p, s, st, k, b in sites],
-        "stop_before_disable": stop_before_disable, "handler_buffers_first": buffers_first, "llm_stop": llm_stop,
+        "stop_before_disable": stop_before_disable, "handler_buffers_first": buffers_first, "llm_stop": llm_stop, "protocol": protocol, "direct_protocol": direct_protocol, "ws_codes": ws,
         "fingerprints": {f: fingerprint(find_def(stree, f, cls="StreamingHandler")) for f in ("push_chunk", "_process", "on_llm_end", "on_llm_new_token", "disable_buffering", "wait_top_k_nonempty_lines")},
     }
